@@ -26,7 +26,7 @@ Your task: make ONE small, realistic change to the incan sources (the kind of sl
   3. the property above is genuinely violated for SOME input / program / schedule / configuration, but
   4. the violation needs something specific to manifest — a particular interleaving, a particular operand class or boundary value, a multi-step sequence, an unusual-but-legal input shape, a particular nesting context, or two cooperating sites — NOT something that ordinary use (the hello-world examples) would expose at once.{(' ' + variant) if variant else ''}
 
-Before changing anything, confirm that the behaviour you are about to break is actually correct on the unmodified tree for your demonstration input (the project is beta software and some things are already broken; a "defect" that was already present does not count). Then write a demonstration — a Rust test file, a small Rust program using the crates, a shell script driving the built `incan` binary ({wt}/target/debug/incan), or an Incan program plus expected output — that FAILS with your change and PASSES without it, and actually run it both ways (git stash / git stash pop, or git diff > patch; git checkout; ...).
+Before changing anything, confirm that the behaviour you are about to break is actually correct on the unmodified tree for your demonstration input (the project is beta software and some things are already broken; a "defect" that was already present does not count). Then write a demonstration — a Rust test file, a small Rust program using the crates, a shell script driving the built `incan` binary ({wt}/target/debug/incan), or an Incan program plus expected output — that FAILS with your change and PASSES without it, and actually run it both ways (use `git diff > /tmp/<unique>.diff; git checkout -- .; ...; git apply /tmp/<unique>.diff` — NEVER use `git stash`: the stash is shared between all worktrees of this repository and other agents are working in sibling worktrees).
 
 Deliver, in the directory {wt}/_seed/ (create it; it is untracked):
   - patch.diff  : `git diff` of your change to tracked files only (must apply with `git apply` to a clean checkout of the same commit; must NOT include the demonstration or anything under _seed/)
